@@ -193,10 +193,14 @@ pub fn main(args: &[String]) -> i32 {
         "post": post_state(&store, &keys)}));
     let mut reopens = 0;
     let mut forced: std::collections::VecDeque<(u32, u64)> = std::collections::VecDeque::new();
+    let mut forced_key: Option<usize> = None;
     crate::util::watchdog::start(o.num("watchdog", 25));
     for step in 0..steps {
         crate::util::watchdog::beat(&format!("step {step} after {} events", cx.events));
-        let ki = rng.random_range(0..keys.len());
+        let ki = match (forced_key, forced.front()) {
+            (Some(fk), Some((100 | 101, _))) => fk,
+            _ => rng.random_range(0..keys.len()),
+        };
         let key = keys[ki].clone();
         let k = ki + 1;
         let cur = store.verif_record(&key);
@@ -257,14 +261,39 @@ pub fn main(args: &[String]) -> i32 {
             forced.push_back((8, 0));
             forced.push_back((10, 0));
         }
+        // targeted burst under a memory limit: an overwrite carrying a FUTURE explicit timestamp that
+        // must fail with OutOfMemory, then automatic writes to the same key (a failed call's timestamp
+        // is never absorbed into the version clock)
+        if forced.is_empty() && cfg.lim >= 0 && key.len() < 100 && rng.random_range(0..30) == 0 {
+            forced_key = Some(ki);
+            forced.push_back((100, 0));
+            forced.push_back((101, 0));
+            forced.push_back((100, 0));
+            forced.push_back((100, 0));
+        }
         match bias.as_str() {
             "range" if forced.is_empty() && rng.random_range(0..3) == 0 => op = 19,
             "ttl" if forced.is_empty() && rng.random_range(0..4) == 0 => op = [3, 15, 16, 21, 23, 10][rng.random_range(0..6)],
             "mem" if forced.is_empty() && rng.random_range(0..3) == 0 => op = [0, 1, 6, 8, 10, 12][rng.random_range(0..6)],
             _ => {}
         }
+        let mut val = val;
         if let Some((fop, fttl)) = forced.pop_front() {
             op = fop;
+            if fop == 100 {
+                op = 0;
+                ts_choice = None;
+                auto = true;
+                ts_val = 0;
+                val = vec![b'q'; 3];
+            }
+            if fop == 101 {
+                op = [0, 3][rng.random_range(0..2)];
+                ts_val = cx.now + 50 * E9;
+                ts_choice = Some(ts_val);
+                auto = false;
+                val = vec![b'Q'; cfg.lim as usize + 1];
+            }
             if fop == 3 {
                 ttl = fttl;
                 ts_choice = None;
